@@ -456,7 +456,7 @@ def run_property(prop, module, theorems, tier, seed, nquick, nthorough, feature_
                     ok, why = False, 'reported hit counts differ from the executed line events'
                 elif aspect == 'time' and not p['threads'] and [spec[i] for i in q] != [impl_s[i] for i in q]:
                     ok, why = False, 'reported times differ from the per-activation specification'
-        if aspect == 'mono':
+        if ok and aspect == 'mono':
             ok, why = snaps_wf_monotone(o)
         if ok and aspect in ('hits', 'time') and not outside and 'selfdisable' not in p['features']:
             # (programs whose functions switch their own profiler off legitimately run lines unprofiled)
